@@ -11,28 +11,33 @@
                    OpSuccessors.__setitem__ (any index; code after fix f198beb), SSAValue.replace_all_uses_with,
                    replace_uses_with_if, SSAValue.erase, PatternRewriter.replace_all_uses_with / replace_uses_with_if
                    (IRWithUses.add_use / remove_use as pointer lemmas against the invariant Uabs)
-     block args    Block.insert_arg, Block.erase_arg, PatternRewriter.insert_block_argument / erase_block_argument
+     block args    Block.insert_arg, Block.erase_arg, PatternRewriter.insert_block_argument / erase_block_argument,
+                   Rewriter.replace_value_with_new_type (PatternRewriter.replace_value_with_new_type)
      ops in blocks Block.insert_op_after, insert_op_before, add_op, add_ops, insert_ops_before, insert_ops_after,
                    detach_op, Operation.detach, Rewriter.insert_op (and PatternRewriter.insert)
      blocks in regions  Region.add_block, insert_block_before, insert_block_after, insert_block (lists of any
                    length), Rewriter.insert_block, Region.detach_block (block or index), Region.move_blocks,
                    move_blocks_before, Rewriter.inline_region, Rewriter.move_region_contents_to_new_regions
      regions in ops Operation.add_region, detach_region (region or index; code after fix 9351131)
-     erase         Operation.erase, Block.erase_op, Rewriter.erase_op (PatternRewriter.erase) -- ONLY for an
-                   operation WITHOUT regions (hypothesis in args_live)
+     erase         Operation.erase, Block.erase_op, Rewriter.erase_op (PatternRewriter.erase): for an operation
+                   without regions, and for an operation with an arbitrary nested tree of regions under the
+                   hypothesis that every node of that tree (the nodes the erase marks) is live (`tree_live`;
+                   for Block.erase_op / Rewriter.erase_op stated on the state after the detach)
+     replace       Rewriter.replace_op, PatternRewriter.replace (replace_op / replace_matched_op) -- ONLY for a
+                   replaced operation WITHOUT regions (hypothesis in args_live)
    Each constructor carries the liveness precondition `args_live` ("erased objects are not used again").
    The history theorem carries the invariant Inv = WF /\ parents_ok; parents_ok (parent pointers of live
    nodes name allocated ids) is an auxiliary fact needed by the creation calls.
 
-   NOT PROVED (covered only by the lock-step correspondence with the real code + evaluation of the
-   proved-sound checker wf_b on the model after every call of every generated history):
-     erase of an operation WITH regions, Block.erase, Region.erase_block (block / index), Region.erase,
-     public drop_all_references (op / block / region), Block.split_before, Rewriter.replace_op,
-     PatternRewriter.replace, Rewriter.replace_value_with_new_type, Rewriter.inline_block. *)
+   NOT PROVED (9 constructors; covered only by the lock-step correspondence with the real code +
+   evaluation of the proved-sound checker wf_b on the model after every call of every generated history):
+     Block.erase, Region.erase_block (block / index), Region.erase,
+     public drop_all_references (op / block / region), Block.split_before, Rewriter.inline_block;
+     also replace_op / PatternRewriter.replace of an operation WITH regions. *)
 From Coq Require Import ZArith List Bool PArith FMapPositive.
 From XV Require Import C01.Model C01.Spec C01.ProofsWfb C01.ProofsFrame C01.ProofsUses C01.ProofsOperands
   C01.ProofsRauw C01.ProofsSetOperands C01.ProofsSetSuccessors C01.ProofsDll C01.ProofsOps C01.ProofsBlocks
-  C01.ProofsOpRegions C01.ProofsMove C01.ProofsOpLists C01.ProofsBlockLists C01.ProofsArgs C01.ProofsCreate C01.ProofsInv C01.ProofsErase C01.ProofsReplaceType C01.ProofsHistory C01.ProofsDemo.
+  C01.ProofsOpRegions C01.ProofsMove C01.ProofsOpLists C01.ProofsBlockLists C01.ProofsArgs C01.ProofsCreate C01.ProofsInv C01.ProofsErase C01.ProofsReplaceType C01.ProofsReplaceOp C01.ProofsHistory C01.ProofsDemo.
 Import ListNotations.
 Local Open Scope Z_scope.
 
@@ -275,6 +280,47 @@ Theorem C01_rw_erase_op_noregions_preserves : forall s s' o x safe r,
 Proof. exact rw_erase_op_noregions_WF. Qed.
 Print Assumptions C01_rw_erase_op_noregions_preserves.
 
+(* successful erase of an operation WITH an arbitrary nested tree of regions: every node collected by
+   the erase walk (collect_op: the nodes the erase marks erased) must be live *)
+Theorem C01_op_erase_tree_preserves : forall s s' o safe r,
+  WF s -> all_live s (collect_op (fuel_of s) s o) -> op_erase o safe true s = (s', Ok r) -> WF s'.
+Proof. exact op_erase_tree_WF. Qed.
+Print Assumptions C01_op_erase_tree_preserves.
+
+Theorem C01_erase_op_tree_preserves : forall s s' b o safe r,
+  WF s -> blk_live s b -> op_live s o ->
+  (forall s1 r1, detach_op b o s = (s1, Ok r1) -> all_live s1 (collect_op (fuel_of s1) s1 o)) ->
+  erase_op b o safe s = (s', Ok r) -> WF s'.
+Proof. exact erase_op_tree_WF. Qed.
+Print Assumptions C01_erase_op_tree_preserves.
+
+Theorem C01_rw_erase_op_tree_preserves : forall s s' o safe r,
+  WF s -> op_live s o ->
+  (forall x b, PM.find o (s_ops s) = Some x -> o_parent x = Some b ->
+     blk_live s b /\ forall s1 r1, detach_op b o s = (s1, Ok r1) -> all_live s1 (collect_op (fuel_of s1) s1 o)) ->
+  (forall x, PM.find o (s_ops s) = Some x -> o_parent x = None -> all_live s (collect_op (fuel_of s) s o)) ->
+  rw_erase_op o safe s = (s', Ok r) -> WF s'.
+Proof. exact rw_erase_op_tree_WF. Qed.
+Print Assumptions C01_rw_erase_op_tree_preserves.
+
+(* Rewriter.replace_op / PatternRewriter.replace of an operation WITHOUT regions by new operations and
+   new results (insert the new ops, replace the results' uses, erase the old op) *)
+Theorem C01_replace_op_preserves : forall s s' o new_ops new_results safe r,
+  WF s -> parents_ok s -> op_noreg s o ->
+  (forall x b, PM.find o (s_ops s) = Some x -> o_parent x = Some b -> blk_live s b) ->
+  (forall n, In n new_ops -> op_live s n) ->
+  rw_replace_op o new_ops new_results safe s = (s', Ok r) -> WF s' /\ parents_ok s'.
+Proof. exact rw_replace_op_inv. Qed.
+Print Assumptions C01_replace_op_preserves.
+
+Theorem C01_pr_replace_preserves : forall s s' o new_ops new_results safe r,
+  WF s -> parents_ok s -> op_noreg s o ->
+  (forall x b, PM.find o (s_ops s) = Some x -> o_parent x = Some b -> blk_live s b) ->
+  (forall n, In n new_ops -> op_live s n) ->
+  pr_replace o new_ops new_results safe s = (s', Ok r) -> WF s' /\ parents_ok s'.
+Proof. exact pr_replace_inv. Qed.
+Print Assumptions C01_pr_replace_preserves.
+
 (* creation.  WF alone does not exclude a live node whose parent field names an id that is not
    allocated yet; the creation calls therefore need the auxiliary invariant `parents_ok` (parent
    pointers of live nodes are below the allocation counters), which every proved call preserves *)
@@ -368,6 +414,12 @@ Print Assumptions C01_history_hypothesis_satisfiable.
 Theorem C01_history_from_empty_satisfiable : clean empty_state (demo_build ++ demo_clean).
 Proof. exact demo_from_empty_ok. Qed.
 Print Assumptions C01_history_from_empty_satisfiable.
+
+(* the tree version of the erase theorem is not vacuous: a 5-call clean history from the empty heap
+   that erases an operation holding a region with a block (one argument) and a nested operation *)
+Theorem C01_erase_tree_satisfiable : clean empty_state demo_tree /\ wf_b (run demo_tree empty_state) = true.
+Proof. exact demo_tree_ok. Qed.
+Print Assumptions C01_erase_tree_satisfiable.
 
 Example C01_setitem_negative_fixed :
   snd (operands_setitem 1%positive (-1) 1%positive w_setitem) = Ok tt /\
